@@ -147,6 +147,29 @@ pub fn boundary(out: &mut crate::Out, tag: &str, seed: u64, cases: usize) {
             d.seal_next(None);
         }
     }
+    // directed: degenerate transactions of every kind (nothing in, nothing or next to nothing out, no fee)
+    {
+        let pools = swapdrive::known_pools(&d);
+        let key = pools.first().map(|x| x.0).unwrap_or(PoolKey::new(Denom::Mel, Denom::Sym));
+        let doc = StakeDoc { pubkey: d.wal.keys[0].0, e_start: 5, e_post_end: 9, syms_staked: CoinValue(0) };
+        let datas: Vec<(Vec<u8>, &str)> = vec![(vec![], "empty"), (stdcode::serialize(&(8u32, vec![0u8; 40])).unwrap(), "mint data"), (stdcode::serialize(&doc).unwrap(), "stake doc"),
+                                              (key.to_bytes().to_vec(), "pool key")];
+        let outsets: Vec<(Vec<CoinData>, &str)> = vec![
+            (vec![], "no outputs"), (vec![mk_coin(t, 0, Denom::Mel, &[])], "one zero MEL output"), (vec![mk_coin(t, 0, Denom::Erg, &[])], "one zero ERG output"),
+            (vec![mk_coin(t, 5, Denom::Erg, &[])], "5 ERG"), (vec![mk_coin(t, 0, Denom::NewCustom, &[])], "zero new token"), (vec![mk_coin(t, 0, Denom::Sym, &[]), mk_coin(t, 0, Denom::Sym, &[])], "two zero SYM"),
+        ];
+        for kind in kinds.iter() {
+            for (outs, on) in outsets.iter() {
+                for (data, dn) in datas.iter() {
+                    let tx = Transaction { kind: *kind, inputs: vec![], outputs: outs.clone(), fee: CoinValue(0), covenants: vec![], data: data.clone().into(), sigs: vec![] };
+                    let (nid, ok) = d.w.batch(d.cur, &[tx], 0, json!({"why": format!("degenerate {:?}: no inputs, {}, fee 0, data {}", kind, on, dn)}));
+                    if ok {
+                        d.w.seal(nid, None, json!({"why": "seal after degenerate case"}));
+                    }
+                }
+            }
+        }
+    }
     // directed: the overflow of total_outputs (255 outputs of 2^120 and a fee of 2^120 against a zero-valued MEL input)
     let zero = d.coins().into_iter().find(|(_, x)| x.coin_data.denom == Denom::Mel && x.coin_data.value.0 == 0);
     if let Some(z) = zero {
